@@ -319,7 +319,7 @@ theorem bp_eq_normalise_disjoint (d : Dom) (cliques : List Clique) (t : Tree)
       = (RG.normalise total (pots.get c)).dom.attrs ∧
     (((GM.beliefPropagation cliques order pots total).get c).sem σ).v
       = ((RG.normalise total (pots.get c)).sem σ).v := by
-  obtain ⟨b1, b2⟩ := C01.bp_marginals d cliques t order pots hok total hZ c hc σ hσ
+  obtain ⟨b1, b2⟩ := Sem.BP.bp_marginals d cliques t order pots hok total hZ c hc σ hσ
   obtain ⟨n1, n2⟩ := normalise_exact d cliques pots (DisjointOK.of_modelOK hok hdis) total hZ c hc σ hσ
   exact ⟨by rw [b1, n1], by rw [b2, n2]⟩
 
